@@ -10,9 +10,12 @@ import time
 
 VERIF = os.path.dirname(os.path.dirname(os.path.abspath(__file__)))
 SPEC = os.path.join(VERIF, "spec")
-OUT = os.path.join(VERIF, "out")
-EVID = os.path.join(VERIF, "evidence")
-REPO = "/repo"
+# VERIF_REPO / VERIF_SCRATCH are for the seeded-change runner only (a patched scratch worktree, separate scratch
+# and evidence directories so that it can run beside the registered checks); the registered checks use /repo.
+REPO = os.environ.get("VERIF_REPO", "/repo")
+_SCR = os.environ.get("VERIF_SCRATCH", "")
+OUT = os.path.join(VERIF, "out", _SCR) if _SCR else os.path.join(VERIF, "out")
+EVID = os.path.join(OUT, "evidence") if _SCR else os.path.join(VERIF, "evidence")
 JAR = "/opt/veriftools/tla/tla2tools.jar:/opt/veriftools/tla/CommunityModules-deps.jar"
 NCPU = os.cpu_count() or 4
 
@@ -100,7 +103,7 @@ def parse_verdict(tup):
     m = re.match(r'<<\s*"VERDICT",\s*(-?\d+),\s*"([^"]*)",\s*(-?\d+)(?:,\s*(-?\d+))?(?:,\s*"([^"]*)")?\s*', tup.replace("\n", " "))
     if not m:
         raise Machinery("unparsable verdict %r" % tup[:200])
-    also = m.group(5) if m.group(5) and m.group(5) != "ok" else None
+    also = "|".join(x for x in (m.group(5) or "").split("|") if x and x != "ok") or None
     return int(m.group(1)), m.group(2), int(m.group(3)), int(m.group(4) or 0), also
 
 
